@@ -1367,6 +1367,7 @@ EXPECTED_BRANCHES += ['nd:' + t for t in ('iso', 'aniso', 'iso-within-tolerance'
                            'contain/between-nodes', 'measure/point-set', 'measure/degenerate-axis',
                            'corners/degenerate-axis', 'subgrid/uniform-path', 'subgrid/nonuniform-path',
                            'subgrid/proper-subgrid', 'subgrid/moved-within-rtol', 'subgrid/moved-off-grid',
+                           'subgrid/nonuniform-far-from-origin', 'eq/different-ndim',
                            'setops/uniform_grid', 'setops/squeeze-to-0d', 'validate/grid-outside-lo',
                            'validate/grid-outside-hi', 'sets/3d'.replace('sets/', 'eq/'))]
 
@@ -1937,6 +1938,11 @@ def run_sets(desc, kind, rp):
                 val(lambda: p.set.approx_equals(r.set, atol=float(delta / 2))) is False and
                 val(lambda: p.set.approx_equals(r.set, atol=float(delta * 2))) is True)
         if nd >= 2:
+            chk('different ndim approx_equals', val(lambda: p.set.approx_equals(p.set[[0]], atol=1e6)) is False and
+                val(lambda: p.set[[0]].approx_equals(p.set, atol=1e6)) is False and
+                val(lambda: p.approx_equals(p.byaxis[0], atol=1e6)) is False and
+                val(lambda: p.grid.approx_equals(p.byaxis[0].grid, atol=1e6)) is False)
+            tags.add('different-ndim')
             chk('different ndim ==', val(lambda: p == p.byaxis[0]) is False and
                 val(lambda: p.set == p.set[[0]]) is False and val(lambda: p.grid == p.grid[:, 0] if False else True))
     elif kind == 'contain':
@@ -2124,6 +2130,23 @@ def run_sets(desc, kind, rp):
                     'axis {} moved by {} items {} ({} path)'.format(ax, fs(d), items, 'uniform' if uni else 'non-uniform'))
                 tags.add('moved-onto-other-nodes' if within(0) else 'moved-off-grid')
             chk('is_subgrid of other types', val(lambda: g.is_subgrid('x')) is False)
+        # `atol` is ABSOLUTE on the non-uniform path too (fixed finding C14-F6, /repo 6afa401): far from the
+        # origin a node that misses the other grid by e = 2^-18 * |x| (< 1e-5 relative) is not a subgrid node
+        # below atol = e
+        X = F(2 ** rng.randint(10, 20))
+        e = X / 2 ** 18
+        sp = X / 8
+        far_v, near_v = [X, X + sp, X + 3 * sp, X + 4 * sp], [X + e, X + 3 * sp]
+        far = val(lambda: odl.RectGrid(fl_(far_v)))
+        near = val(lambda: odl.RectGrid(fl_(near_v)))
+        chk('absolute atol on the non-uniform path far from the origin',
+            val(lambda: bool(near.is_subgrid(far))) is False and
+            val(lambda: bool(near.is_subgrid(far, atol=float(e / 2)))) is False and
+            val(lambda: bool(near.is_subgrid(far, atol=float(2 * e)))) is True and
+            val(lambda: bool(far.is_uniform)) is False,
+            'RectGrid({}).is_subgrid(RectGrid({}), atol) for atol = 0, e/2, 2e with e = {}'.format(
+                fl(near_v), fl(far_v), fs(e)))
+        tags.add('nonuniform-far-from-origin')
     elif kind == 'setops':
         s, g = p.set, p.grid
         k = rng.randint(1, nd)
